@@ -233,14 +233,19 @@ def constraint_web_blocks(g, n, nlines=14):
             if not x["l"]:
                 x["l"] = next(T(w) for w in ("first", "second", "third", "fourth", "fifth", "sixth", "seventh", "eighth", "ninth") if tuple(T(w)) not in used_l)
                 used_l.add(tuple(x["l"]))
+        if r.random() < 0.4:
+            # long keys only, from families in which one key is the beginning of another (an argument is what its complete key says)
+            fam = r.sample(["log", "logfile", "log-level", "in", "input", "input-file", "out", "output", "val", "value", "num", "number", "max", "maxsize"], len(cfg["args"]))
+            for x, w in zip(cfg["args"], fam):
+                x["s"] = 0; x["l"] = T(w)
         idx = list(range(1, len(cfg["args"]) + 1))
         owners = r.sample(idx, r.randint(3, min(6, len(idx))))
         for o in owners:
             others = [j for j in idx if j != o]
             cfg["args"][o - 1][r.choice(["req", "req", "exc"])] = r.sample(others, r.choice([1, 1, 2]))
             cfg["args"][o - 1]["cspell"] = r.choice([0, 1, 2, 3])
-        if r.random() < 0.3:
-            cfg["hcons"].append({"k": r.choice(["allOf", "anyOf", "oneOf"]), "args": sorted(r.sample(idx, 2)), "cspell": r.choice([0, 1, 2, 3, 3]), "grp": 0})
+        if r.random() < 0.5:
+            cfg["hcons"].append({"k": r.choice(["allOf", "anyOf", "oneOf", "oneOf"]), "args": sorted(r.sample(idx, 2)), "cspell": r.choice([0, 1, 2, 3, 3]), "grp": 0})
         use = lambda i: [i, []] if cfg["args"][i - 1]["kind"] == "flag" else [i, [str(r.randint(0, 9))]]
         acts = []
         for _ in range(nlines):
